@@ -858,7 +858,7 @@ func (h *cx3Harness) Reset(init map[string]any) error {
 	for t, o := range owner {
 		h.owner[t], _ = o.(string)
 	}
-	h.rng = rand.New(rand.NewSource(h.seed*1000003 + int64(h.nreset)))
+	h.rng = rand.New(rand.NewSource(h.seed*1000003 + 7)) // the same id stream for every walk of a run, so that a replayed walk (same VERIF_SEED) meets the same ids
 	return h.pickIDs()
 }
 
